@@ -122,6 +122,33 @@ theorem vortex_unitary [StarRing K] (mI ch sh c s cr sr : K) (hI : mI ^ 2 = -1) 
     · ring
     · linear_combination sh ^ 2 * ht + hd - ch ^ 2 * hI
 
+/-- retarders with a common axis compose by multiplying their phases: two quarter-wave plates make a half-wave plate,
+and a half-wave plate (`u = -1`) is an involution -/
+theorem retarder_compose (u v c s : K) (h : c ^ 2 + s ^ 2 = 1) :
+    (retarder u c s).mul (retarder v c s) = retarder (u * v) c s ∧
+    (retarder (-1) c s).mul (retarder (-1) c s) = M22.one := by
+  have key : ∀ u v : K, (retarder u c s).mul (retarder v c s) = retarder (u * v) c s := by
+    intro u v
+    simp only [gen_retarder, Model.C20.retarder, Model.C20.sandwich]
+    calc (((Model.C20.rot c (-s)).mul ⟨Num.ofInt 1, Num.ofInt 0, Num.ofInt 0, u⟩).mul (Model.C20.rot c s)).mul
+          (((Model.C20.rot c (-s)).mul ⟨Num.ofInt 1, Num.ofInt 0, Num.ofInt 0, v⟩).mul (Model.C20.rot c s))
+        = (Model.C20.rot c (-s)).mul ((⟨Num.ofInt 1, Num.ofInt 0, Num.ofInt 0, u⟩ : M22 K).mul
+            (((Model.C20.rot c s).mul (Model.C20.rot c (-s))).mul
+              ((⟨Num.ofInt 1, Num.ofInt 0, Num.ofInt 0, v⟩ : M22 K).mul (Model.C20.rot c s)))) := by
+          simp only [m_mul_assoc]
+      _ = ((Model.C20.rot c (-s)).mul ⟨Num.ofInt 1, Num.ofInt 0, Num.ofInt 0, u * v⟩).mul (Model.C20.rot c s) := by
+          rw [rot_mul_neg c s h, m_one_mul, ← m_mul_assoc, ← m_mul_assoc]
+          congr 1
+          rw [m_mul_assoc]
+          congr 1
+          apply M22.ext' <;> simp [M22.mul]
+  refine ⟨key u v, ?_⟩
+  rw [key]
+  simp only [gen_retarder, Model.C20.retarder, Model.C20.sandwich]
+  have e : (⟨Num.ofInt 1, Num.ofInt 0, Num.ofInt 0, (-1 : K) * -1⟩ : M22 K) = M22.one := by
+    apply M22.ext' <;> simp [M22.one]
+  rw [e, m_mul_one, rot_neg_mul c s h]
+
 /-! ## diattenuators and polarisers -/
 
 /-- closed form of the rotated diattenuator -/
